@@ -1276,18 +1276,20 @@ func c15Boundary(s *pSchema) {
 	for _, f := range in.GetFields() {
 		toks = append(toks, fi(int(f.GetNumber())))
 	}
-	probes := []int32{-1, -2, -128, math.MinInt32, math.MinInt32 + 1, 0}
-	probes = append(probes, boundaryNumbers()...)
-	toks = append(toks, fi(len(probes)))
-	for _, n := range probes {
-		f, pan := byNumber(md, n)
-		res := -1
-		if pan {
-			res = -2
-		} else if f != nil {
-			res = int(f.Number())
+	// two cases: the non-negative boundary numbers, and the negative ones (Get indexes the slice with them)
+	for _, probes := range [][]int32{append([]int32{0}, boundaryNumbers()...), {-1, -2, -128, math.MinInt32, math.MinInt32 + 1}} {
+		t := append([]string{}, toks...)
+		t = append(t, fi(len(probes)))
+		for _, n := range probes {
+			f, pan := byNumber(md, n)
+			res := -1
+			if pan {
+				res = -2
+			} else if f != nil {
+				res = int(f.Number())
+			}
+			t = append(t, fi(int(n)), fi(res))
 		}
-		toks = append(toks, fi(int(n)), fi(res))
+		out.emit(1505, t...)
 	}
-	out.emit(1505, toks...)
 }
